@@ -1,0 +1,21 @@
+//go:build verif && linux
+
+package ptrace
+
+// Verification hooks (build tag verif): exported views of unexported functions.
+// Nothing here is compiled without the tag.
+
+// VerifResolve is resolveTraceePath.
+func VerifResolve(pid int, base, p string) string { return resolveTraceePath(pid, base, p) }
+
+// VerifAbsPath is absPath.
+func VerifAbsPath(pid int, p string) string { return absPath(pid, p) }
+
+// VerifAbsPathAt is absPathAt.
+func VerifAbsPathAt(pid, dirfd int, p string) string { return absPathAt(pid, dirfd, p) }
+
+// VerifIsOpenReadOnly is isOpenReadOnly.
+func VerifIsOpenReadOnly(flags uint64) bool { return isOpenReadOnly(flags) }
+
+// VerifIsDangerousProcPath is isDangerousProcPath.
+func VerifIsDangerousProcPath(p string) bool { return isDangerousProcPath(p) }
